@@ -9,10 +9,12 @@ git checkout -q -- . || exit 2
 git apply "out/patch$K.diff" || { echo "CONFIRM patch$K: does not apply"; exit 1; }
 cmake --build _build -j8 >/dev/null 2>&1 || { echo "CONFIRM patch$K: BUILD FAILS"; git checkout -q -- .; exit 1; }
 T=$(./_build/bin/bloch_tests 2>/dev/null | tail -1)
-sh "out/demo$K.sh" "$W/_build/bin/bloch" >/tmp/mut/demo_with.$$ 2>&1; WITH=$?
+ARG="$W/_build/bin/bloch"; ARG2=""
+if grep -qiE "source[- ]tree|source tree|<tree>|SRC=" "out/demo$K.sh"; then ARG="$W"; ARG2="$W/_build/bin/bloch"; fi
+bash "out/demo$K.sh" "$ARG" $ARG2 >/tmp/mut/demo_with.$$ 2>&1; WITH=$?
 git checkout -q -- .
 cmake --build _build -j8 >/dev/null 2>&1
-sh "out/demo$K.sh" "$W/_build/bin/bloch" >/tmp/mut/demo_without.$$ 2>&1; WITHOUT=$?
+bash "out/demo$K.sh" "$ARG" $ARG2 >/tmp/mut/demo_without.$$ 2>&1; WITHOUT=$?
 echo "CONFIRM $(basename $W) patch$K: tests='$T' demo_with_patch_exit=$WITH demo_without_patch_exit=$WITHOUT"
 rm -f /tmp/mut/demo_with.$$ /tmp/mut/demo_without.$$
 [ "$WITH" != 0 ] && [ "$WITHOUT" = 0 ] && echo "$T" | grep -q "288 tests passed, 0 failed"
